@@ -5,7 +5,6 @@ import (
 	"go/ast"
 	"go/token"
 	"go/types"
-	"math/big"
 	"sort"
 	"strings"
 
@@ -20,7 +19,7 @@ func init() {
 		id:    "C02",
 		title: "Data operators compute what the PostScript reference prescribes",
 		explanation: "Decides the table clauses of C02 for every operator registered in the system dictionary: (1) registry completeness — each of the 63 supported operators is bound to a function, the data entries have their prescribed types and every composite one is allocated per interpreter (not a package-level object shared by all interpreters), the error list is the PLRM's 28 names; (2) operand count — each operator, evaluated with fewer operands than the PLRM count, reports stackunderflow, and with that many it does not (helpers evaluated in place); (3) error-name discipline — every error exit is classified by its controlling condition (stack depth → stackunderflow, failed type test → typecheck, operand compared with 0 or a length → rangecheck, with a size limit → limitcheck, failed look-up → undefined / undefinedresource / invalidfont, dictionary-stack depth → dictstackoverflow/underflow, exhausted mark scan → unmatchedmark) and must carry the name of its class, with a frozen list of exceptions; " +
-			"(4) accepted-operand region — for get, put, getinterval, putinterval, index, copy, array, string, dict, repeat the guards on the success path are equivalent (mutual Fourier–Motzkin entailment) to the PLRM region over (operands, lengths), so a guard that is too strict is reported as well as one that is too lax, and narrowing conversions are range-checked; (5) overflow promotion — the overflow predicates of add, sub, mul and abs are evaluated from the source over all pairs of boundary operands (min, min+1, −2…2, max−1, max) in wrapped 64-bit arithmetic and must be true exactly on the pairs whose exact result is not representable; " +
+			"(4) accepted-operand region — for get, put, getinterval, putinterval, index, copy, array, string, dict, repeat the guards on the success path are equivalent (mutual Fourier–Motzkin entailment) to the PLRM region over (operands, lengths), so a guard that is too strict is reported as well as one that is too lax, and narrowing conversions are range-checked; (5) overflow promotion — add, sub, mul and abs are evaluated on the SSA form over all pairs of boundary operands (min, min+1, −2…2, max−1, max) in wrapped arithmetic of the analysed word size: where the exact result is representable that integer must be pushed, where it is not a real close to it (never the wrapped integer); " +
 			"(6) net stack effect — on every normal return the operand-stack height differs from the height at entry by the PLRM figure (for control operators: up to the first execution of a procedure). " +
 			"(7) sharing — the value that dup, def, begin, definefont, defineresource, findfont, currentdict, get, put, index, exch, load, cvx push or store is the operand (or stored object) itself, getinterval pushes a sub-slice of its operand, put/putinterval write through the operand's storage, and no operator pushes or stores a library copy (maps.Clone, slices.Clone, …) of an existing composite; (8) identity — eq/ne hand two dictionaries to the identity test, whose probe protocol (probe key absent from both, insert, look up in the other, delete) is checked step by step, and ne negates while eq does not. " +
 			"It does NOT decide that a computed value pushed is the right one (the sum itself, numeric equality normalisation, dictionary contents, string contents).",
@@ -98,34 +97,17 @@ func runC02(c *Ctx) {
 			c.check(v == want, "OP-REGISTRY", "postscript.makeSystemDict", k+" = Boolean("+want+")", token.NoPos, v, "the name "+k+" is bound to Boolean("+v+")")
 		}
 	}
-	// error names
+	// error names: the list from which NewInterpreter fills the error dictionary (ext_f.go)
 	{
-		var got []string
-		p := c.pkg("postscript")
-		info := p.TypesInfo
-		for _, f := range p.Syntax {
-			ast.Inspect(f, func(n ast.Node) bool {
-				vs, ok := n.(*ast.ValueSpec)
-				if !ok || len(vs.Names) != 1 || vs.Names[0].Name != "allErrors" || len(vs.Values) != 1 {
-					return true
-				}
-				if cl, ok := vs.Values[0].(*ast.CompositeLit); ok {
-					for _, e := range cl.Elts {
-						if id, ok := e.(*ast.Ident); ok {
-							if g := c.spkg("postscript").Var(id.Name); g != nil {
-								got = append(got, c.globalInit(g))
-							}
-						}
-					}
-				}
-				return true
-			})
-		}
-		_ = info
+		got, found := c.errorDictNames()
 		sort.Strings(got)
 		want := append([]string{}, plrmErrors...)
 		sort.Strings(want)
-		c.check(fmt.Sprint(got) == fmt.Sprint(want), "OP-REGISTRY", "postscript.allErrors", "the error dictionary lists exactly the 28 PLRM error names", token.NoPos, fmt.Sprintf("%d names", len(got)), fmt.Sprintf("allErrors is %v, expected %v", got, want))
+		detail := fmt.Sprintf("allErrors is %v, expected %v", got, want)
+		if !found {
+			detail = "the list of names from which NewInterpreter fills the error dictionary was not found"
+		}
+		c.check(found && fmt.Sprint(got) == fmt.Sprint(want), "OP-REGISTRY", "postscript.allErrors", "the error dictionary lists exactly the 28 PLRM error names", token.NoPos, fmt.Sprintf("%d names", len(got)), detail)
 	}
 
 	// ---------------- per operator
@@ -360,22 +342,26 @@ func (c *Ctx) errorNames(ia *interpAnchors, reg *registry) {
 				continue
 			}
 			n++
-			class, why := c.errClass(ia, e.key, f, b)
-			if class == "" {
-				continue
-			}
-			construct := fmt.Sprintf("%s: %s exit", e.key, why)
-			if ex, ok := exceptions[e.key+"|"+name]; ok {
-				c.ok("OP-ERRNAME", fname, construct, firstPos(b), "frozen exception: "+ex, "")
-				continue
-			}
-			okName := false
-			for _, alt := range strings.Split(class, "|") {
-				if alt == name {
-					okName = true
+			// an error exit shared by several conditions (`a || b`, two guards that jump to one
+			// block) is one exit per condition: each of them must carry the name of its own class
+			for _, cw := range c.errClasses(ia, e.key, f, b) {
+				class, why := cw[0], cw[1]
+				if class == "" {
+					continue
 				}
+				construct := fmt.Sprintf("%s: %s exit", e.key, why)
+				if ex, ok := exceptions[e.key+"|"+name]; ok {
+					c.ok("OP-ERRNAME", fname, construct, firstPos(b), "frozen exception: "+ex, "")
+					continue
+				}
+				okName := false
+				for _, alt := range strings.Split(class, "|") {
+					if alt == name {
+						okName = true
+					}
+				}
+				c.check(okName, "OP-ERRNAME", fname, construct, firstPos(b), name, fmt.Sprintf("%s: the exit taken when %s reports `%s`; the PLRM error for this condition is `%s`", e.key, why, name, class))
 			}
-			c.check(okName, "OP-ERRNAME", fname, construct, firstPos(b), name, fmt.Sprintf("%s: the exit taken when %s reports `%s`; the PLRM error for this condition is `%s`", e.key, why, name, class))
 		}
 	}
 	c.floor("OP-ERRNAME", 120)
@@ -390,7 +376,34 @@ func (c *Ctx) errClass(ia *interpAnchors, op string, f *ssa.Function, b *ssa.Bas
 		}
 		return "", ""
 	}
-	p := b.Preds[0]
+	return c.errClassEdge(ia, op, f, b.Preds[0], b)
+}
+
+// errClasses: the classes of the conditions that lead into error block b, one per incoming edge
+// (distinct classes only).  A block entered from one place has one class; a block shared by
+// several conditions has one per condition that can be classified.
+func (c *Ctx) errClasses(ia *interpAnchors, op string, f *ssa.Function, b *ssa.BasicBlock) [][2]string {
+	if len(b.Preds) <= 1 || op == "]" || op == ">>" || op == "cleartomark" {
+		cl, why := c.errClass(ia, op, f, b)
+		return [][2]string{{cl, why}}
+	}
+	var out [][2]string
+	seen := map[string]bool{}
+	for _, p := range b.Preds {
+		if _, isIf := p.Instrs[len(p.Instrs)-1].(*ssa.If); !isIf || (p.Succs[0] == b && p.Succs[1] == b) {
+			continue
+		}
+		cl, why := c.errClassEdge(ia, op, f, p, b)
+		if cl != "" && !seen[cl+"|"+why] {
+			seen[cl+"|"+why] = true
+			out = append(out, [2]string{cl, why})
+		}
+	}
+	return out
+}
+
+// errClassEdge classifies the condition tested at the end of p that leads into error block b.
+func (c *Ctx) errClassEdge(ia *interpAnchors, op string, f *ssa.Function, p, b *ssa.BasicBlock) (string, string) {
 	ifi, ok := p.Instrs[len(p.Instrs)-1].(*ssa.If)
 	if !ok {
 		// unconditional: e.g. after a loop
@@ -617,9 +630,36 @@ func (c *Ctx) operandRegions(ia *interpAnchors, reg *registry) {
 						out = append(out, sl)
 					}
 				})
+				if len(out) == 0 {
+					// the slicing is done by closures made here: the calls of those closures
+					eachInstr(r.f, func(ins ssa.Instruction) {
+						if call, ok := ins.(*ssa.Call); ok && len(closureSlices(call)) > 0 {
+							out = append(out, call)
+						}
+					})
+				}
 				return out
 			},
 			region: func(r *regionCtx, at ssa.Instruction) ([]Lin, []string) {
+				if call, ok := at.(*ssa.Call); ok {
+					// every closure that may be called slices a value captured here with bounds
+					// taken from the arguments: the region is stated on the arguments of the call
+					// and on the length of the captured value
+					var region []Lin
+					var atoms []string
+					key := ""
+					for _, cs := range closureSlices(call) {
+						lo := r.fi.term(cs.lo)
+						hi := r.fi.term(cs.hi)
+						n := r.fi.lenOf(cs.x)
+						reg := []Lin{lo, hi.sub(lo), n.sub(hi)}
+						if key != "" && key != fmt.Sprint(reg) {
+							return nil, nil
+						}
+						key, region, atoms = fmt.Sprint(reg), reg, atomsOf(lo, hi, n)
+					}
+					return region, atoms
+				}
 				sl := at.(*ssa.Slice)
 				lo := r.fi.term(sl.Low)
 				hi := r.fi.term(sl.High)
@@ -854,108 +894,9 @@ func atomsOf(ls ...Lin) []string {
 	return out
 }
 
-// (5) overflow promotion.
+// (5) overflow promotion: decided by evaluation of the operators on the SSA form (ext_f.go).
 func (c *Ctx) overflowPromotion(reg *registry) {
-	info := c.info("postscript")
-	// the width of Integer on the architecture analysed (int: 64 bits, 32 on GOARCH=386)
-	bits := uint(8 * c.pkg("postscript").TypesSizes.Sizeof(c.typeObj("postscript", "Integer").Type()))
-	lo := int64(-1) << (bits - 1)
-	hi := -(lo + 1)
-	vals := []int64{lo, lo + 1, -2, -1, 0, 1, 2, hi - 1, hi}
-	minI := new(big.Int).SetInt64(lo)
-	maxI := new(big.Int).SetInt64(hi)
-	wrap := func(x *big.Int) int64 {
-		m := new(big.Int).Lsh(big.NewInt(1), bits)
-		r := new(big.Int).Mod(x, m)
-		if r.Cmp(maxI) > 0 {
-			r.Sub(r, m)
-		}
-		return r.Int64()
-	}
-	for _, op := range []struct {
-		name string
-		tok  token.Token
-	}{{"add", token.ADD}, {"sub", token.SUB}, {"mul", token.MUL}} {
-		f := reg.op("systemdict", op.name)
-		fd := c.funcDecl("postscript", "", f.Name())
-		// the statement `ci := ai op bi` and the following if
-		var ciStmt *ast.AssignStmt
-		var ovIf *ast.IfStmt
-		ast.Inspect(fd.Body, func(n ast.Node) bool {
-			blk, ok := n.(*ast.BlockStmt)
-			if !ok {
-				return true
-			}
-			for i, st := range blk.List {
-				as, ok := st.(*ast.AssignStmt)
-				if !ok || as.Tok != token.DEFINE || len(as.Rhs) != 1 {
-					continue
-				}
-				be, ok := as.Rhs[0].(*ast.BinaryExpr)
-				if !ok || be.Op != op.tok {
-					continue
-				}
-				if bt, ok := info.TypeOf(be).(*types.Named); !ok || bt.Obj().Name() != "Integer" {
-					continue
-				}
-				if i+1 < len(blk.List) {
-					if ifs, ok := blk.List[i+1].(*ast.IfStmt); ok {
-						ciStmt, ovIf = as, ifs
-					}
-				}
-			}
-			return true
-		})
-		fname := c.fname(f)
-		if ciStmt == nil || ovIf == nil {
-			c.undecided("OP-OVERFLOW", fname, op.name+": overflow test", fd.Pos(), "the integer result and its overflow test were not found")
-			continue
-		}
-		be := ciStmt.Rhs[0].(*ast.BinaryExpr)
-		aObj := info.ObjectOf(be.X.(*ast.Ident))
-		bObj := info.ObjectOf(be.Y.(*ast.Ident))
-		cObj := info.ObjectOf(ciStmt.Lhs[0].(*ast.Ident))
-		bad := ""
-		cells := 0
-		for _, a := range vals {
-			for _, b := range vals {
-				cells++
-				var wrapped int64
-				exact := new(big.Int)
-				switch op.tok {
-				case token.ADD:
-					exact.Add(big.NewInt(a), big.NewInt(b))
-				case token.SUB:
-					exact.Sub(big.NewInt(a), big.NewInt(b))
-				case token.MUL:
-					exact.Mul(big.NewInt(a), big.NewInt(b))
-				}
-				wrapped = wrap(exact)
-				overflow := exact.Cmp(minI) < 0 || exact.Cmp(maxI) > 0
-				env := &aenv{info: info, intBits: int(bits), vars: map[types.Object]aval{aObj: {i: a}, bObj: {i: b}, cObj: {i: wrapped}}}
-				// math.MinInt and friends are constants the type checker evaluates
-				v, ok := env.tryEval(ovIf.Cond)
-				if !ok {
-					bad = "the overflow test is not a pure comparison of the operands and the wrapped result"
-					break
-				}
-				if v.b != overflow && bad == "" {
-					bad = fmt.Sprintf("for %d %s %d (exact result %s, wrapped %d) the overflow test is %v", a, op.name, b, exact.String(), wrapped, v.b)
-				}
-			}
-		}
-		c.check(bad == "", "OP-OVERFLOW", fname, op.name+": integer overflow is detected exactly (and promoted to real)", ovIf.Pos(), fmt.Sprintf("%d boundary operand pairs evaluated", cells), op.name+": "+bad+" — the wrapped integer would be left on the stack instead of a real")
-		// the overflow branch pushes a Real
-		okReal := strings.Contains(nodeString(c, ovIf.Body), "Real(")
-		c.check(okReal, "OP-OVERFLOW", fname, op.name+": the overflow branch pushes a real", ovIf.Pos(), "", op.name+" does not push a real in its overflow branch")
-	}
-	// abs: minint → real
-	{
-		f := reg.op("systemdict", "abs")
-		fd := c.funcDecl("postscript", "", f.Name())
-		txt := nodeString(c, fd.Body)
-		c.check(strings.Contains(txt, "x == math.MinInt") && strings.Contains(txt, "-Real(x)"), "OP-OVERFLOW", c.fname(f), "abs: the most negative integer is promoted to a real", fd.Pos(), "", "abs does not treat the most negative integer separately (its negation overflows)")
-	}
+	c.overflowByEvaluation(reg)
 }
 
 // intArith (OP-INTARITH): every addition, subtraction, multiplication and negation of an integer
